@@ -5,7 +5,7 @@ from vsa import front
 from vsa.facts import Facts, unwrap, show, walk, lit_value
 from vsa.front import AnalysisBroken
 from vsa.cfg import CFG
-from vsa.alg import Fold, S, F as Fn
+from vsa.alg import Fold, S, F as Fn, guard_strs
 
 LEVEL = "other"
 D = "votca::xtp::DavidsonSolver::"
@@ -45,6 +45,8 @@ def run(rep, tier):
     rep.rule("R9.8", "computeCorrectionVector hands back finite entries only: the final element-wise filter maps NaN, +inf and -inf to 0 and keeps finite values "
                      "(r_k/(D_k - lambda) is infinite when a Ritz value equals a diagonal element; an infinity becomes NaN at normalisation and the solver throws "
                      "instead of reporting through its status)")
+    rep.rule("R9.9", "every run of solve takes the diagonal of the operator it is given: Adiag_ = A.diagonal() is assigned unconditionally before the first use "
+                     "(a re-used solver must not keep the diagonal of a previous operator: it feeds the initial guess and the preconditioner)")
     rep.rule("R9.5", "option tables: literals accepted by set_tolerance / set_correction / set_size_update equal the choices of the gwbse option description; every enumerator of CORR/UPDATE/MATRIX_TYPE is handled")
     host = os.path.join(front.VERIF, "hosts", "xtp_davidson.cc")
     units = [host, front.repo("xtp/src/libxtp/davidsonsolver.cc")]
@@ -287,6 +289,7 @@ def run(rep, tier):
     check_extend(rep, F)
     check_av_invariant(rep, F)
     check_correction_filter(rep, F)
+    check_fresh_diagonal(rep, F)
     rep.assumptions += ["that returned values are the lowest eigenvalues, orthonormality, residual bounds, convergence for diagonally dominant "
                         "matrices and the Hamiltonian mode are numerical properties: not decided (most of the property)"]
 
@@ -546,3 +549,36 @@ def check_correction_filter(rep, F):
     if ok and n_f == 0:
         ok, why = False, "no filtered return found"
     rep.check(ok, "R9.8", "finite-correction", "non-finite entries of the correction vector become 0", "DavidsonSolver::computeCorrectionVector: " + why, f.loc(), sample=True)
+
+
+def check_fresh_diagonal(rep, F):
+    fs = [f for f in F.funcs if f.qname == D + "solve"]
+    if not fs:
+        rep.broken("R9.9", "DavidsonSolver::solve not found")
+        return
+    f = fs[0]
+    rep.analysed(f)
+    fo = Fold(f, opaque_types=r"Eigen::Matrix<|RitzEigenPair|ProjectedSpace", inline=False, record_calls=r"DavidsonSolver::\w+$").run()
+    an = f.j["params"][0]["name"]
+    st = [e for e in fo.events if e["kind"] == "store" and e["target"].replace("this->", "") == "Adiag_"]
+    ok, why = len(st) == 1, "expected one assignment of Adiag_ in solve, found %d" % len(st)
+    if ok:
+        e = st[0]
+        rhs = show(unwrap(e["node"]).get("rhs") or (unwrap(e["node"]).get("args") or [None, None])[1] or {})
+        ok = not e["guards"] and not e.get("not") and re.sub(r"\s", "", rhs) == "%s.diagonal()" % an
+        why = "Adiag_ is assigned %s under %s: a solver object that is used again keeps the diagonal of the operator of its previous run" % (rhs, guard_strs(fo, e["guards"]) or "an earlier exit")
+    if ok:
+        # helper functions that read Adiag_, directly or through the helpers they call
+        readers = {g.qname for g in F.funcs if g.qname.startswith(D) and any(n.get("k") == "member" and n.get("fname") == "Adiag_" for n in g.walk())}
+        grew = True
+        while grew:
+            grew = False
+            for g in F.funcs:
+                if g.qname.startswith(D) and g.qname not in readers and any(n.get("k") in ("call", "mcall") and n.get("callee") in readers for n in g.walk()):
+                    readers.add(g.qname)
+                    grew = True
+        readers.discard(D + "solve")
+        first_use = [i for i, x in enumerate(fo.events) if x["kind"] == "call" and x["callee"] in readers]
+        ok = not first_use or fo.events.index(e) < min(first_use)
+        why = "Adiag_ is assigned after a helper that reads it already ran"
+    rep.check(ok, "R9.9", "fresh-diagonal", "Adiag_ = A.diagonal() unconditionally at the start of every run", "DavidsonSolver::solve: " + why, f.loc(st[0]["node"]) if st else f.loc(), sample=True)
